@@ -4,10 +4,9 @@
   One `def` per Rust fn, same names.  `Option` = the Rust code would panic (`none`) — never a default value.
 
   Modelling notes
-  * `FixedBuffer<64>`: the full 64-byte array *with its stale contents* and `buffer_idx` are modelled
-    (namespace `Cx.Impl.FB64`); the closure argument `func` is a state transformer on the captured `h`.
-    Slice-range panics (`buffer[a..b]`, `copy_from_slice`) cannot occur while `buffer.length = 64 ∧ buffer_idx < 64`
-    (invariant, `Proofs.Sha1Stream`), they are not modelled as separate error paths; the explicit `assert!`s are.
+  * `FixedBuffer<64>` is the generic model `Cx.Impl.FixedBuffer` (Impl/FixedBuffer.lean, unit sha2) with `N = 64`:
+    the full 64-byte array with its stale contents and `buffer_idx`; every slice/assert panic is a `none`.
+    The closures given to `input` / `standard_padding` are state transformers on the captured `h`.
   * `processed_bytes : u64`, `+=` is modelled wrapping (release profile).  In overflow-checked builds the same `+=`
     panics once more than 2^64−1 bytes have been fed; below that bound the two agree, and every theorem carries
     the standard's own guard `len < 2^61`.
@@ -16,104 +15,17 @@
   -- API:
   --   Cx.Impl.Sha1.sha1        : Bytes → Option Bytes     `cryptoxide::hashing::sha1` (= new().update(m).finalize())
   --   Cx.Impl.Sha1.Context     with new / update / update_mut / finalize / reset / finalize_reset
+  --   Cx.Impl.Sha1.fam         : Cx.HashProg.Family Context   (the `hctx.sha1` machine)
   --   Cx.Impl.Sha1.digest_block_u32 : Hash → List UInt32 → Option Hash
-  --   Cx.Impl.FB64.FixedBuffer  with input / standard_padding / next / full_buffer / reset
 -/
 import CxVerif.Util.Bytes
 import CxVerif.Spec.Sha1
 import CxVerif.Extracted.Sha1Ripemd
-
-namespace Cx.Impl.FB64
-open Cx
-
-/-- `N` of `FixedBuffer<N>` as instantiated by sha1.rs and ripemd160.rs -/
-def N : Nat := 64
-
-structure FixedBuffer where
-  buffer : Bytes
-  buffer_idx : Nat
-deriving DecidableEq, Repr
-
-namespace FixedBuffer
-
-def new : FixedBuffer := ⟨zeros N, 0⟩
-
-/-- `dst[off .. off + src.len()].copy_from_slice(src)` -/
-def copy_into (dst : Bytes) (off : Nat) (src : Bytes) : Bytes :=
-  dst.take off ++ src ++ dst.drop (off + src.length)
-
-/-- third part of `input`: stash the tail -/
-def input_rest {σ : Type} (self : FixedBuffer) (input : Bytes) (i : Nat) (st : σ) : Option (FixedBuffer × σ) :=
-  let input_remaining := input.length - i
-  some (⟨copy_into self.buffer 0 (input.drop i), self.buffer_idx + input_remaining⟩, st)
-
-/-- second part of `input`: whole blocks straight from the caller's slice -/
-def input_blocks {σ : Type} (self : FixedBuffer) (input : Bytes) (i : Nat) (func : σ → Bytes → Option σ) (st : σ) :
-    Option (FixedBuffer × σ) :=
-  if input.length - i ≥ N then
-    let remaining := input.length - i
-    let block_bytes := (remaining / N) * N
-    match func st ((input.drop i).take block_bytes) with
-    | none => none
-    | some st => input_rest self input (i + block_bytes) st
-  else input_rest self input i st
-
-/-- `FixedBuffer::input` -/
-def input {σ : Type} (self : FixedBuffer) (input : Bytes) (func : σ → Bytes → Option σ) (st : σ) :
-    Option (FixedBuffer × σ) :=
-  if self.buffer_idx ≠ 0 then
-    let buffer_remaining := N - self.buffer_idx
-    if input.length ≥ buffer_remaining then
-      let buffer := copy_into self.buffer self.buffer_idx (input.take buffer_remaining)
-      match func st buffer with
-      | none => none
-      | some st => input_blocks ⟨buffer, 0⟩ input buffer_remaining func st
-    else
-      some (⟨copy_into self.buffer self.buffer_idx input, self.buffer_idx + input.length⟩, st)
-  else input_blocks self input 0 func st
-
-def reset (self : FixedBuffer) : FixedBuffer := { self with buffer_idx := 0 }
-
-/-- `zero_until`: `assert!(idx >= self.buffer_idx)` -/
-def zero_until (self : FixedBuffer) (idx : Nat) : Option FixedBuffer :=
-  if idx ≥ self.buffer_idx then
-    some ⟨copy_into self.buffer self.buffer_idx (zeros (idx - self.buffer_idx)), idx⟩
-  else none
-
-/-- `next::<I>()` followed by the assignment of `data` (`I = data.length`) to the returned array;
-    the range check of `&mut self.buffer[start..self.buffer_idx]` is the `none` -/
-def next (self : FixedBuffer) (data : Bytes) : Option FixedBuffer :=
-  let start := self.buffer_idx
-  let idx := self.buffer_idx + data.length
-  if idx ≤ N then some ⟨copy_into self.buffer start data, idx⟩ else none
-
-/-- `full_buffer`: `assert!(self.buffer_idx == N)` -/
-def full_buffer (self : FixedBuffer) : Option (FixedBuffer × Bytes) :=
-  if self.buffer_idx = N then some ({ self with buffer_idx := 0 }, self.buffer) else none
-
-/-- `standard_padding(rem, func)` -/
-def standard_padding {σ : Type} (self : FixedBuffer) (rem : Nat) (func : σ → Bytes → Option σ) (st : σ) :
-    Option (FixedBuffer × σ) :=
-  match self.next [(128 : UInt8)] with
-  | none => none
-  | some self =>
-    if N - self.buffer_idx < rem then
-      match self.zero_until N with
-      | none => none
-      | some self =>
-        match self.full_buffer with
-        | none => none
-        | some (self, blk) =>
-          match func st blk with
-          | none => none
-          | some st => (self.zero_until (N - rem)).map (fun b => (b, st))
-    else (self.zero_until (N - rem)).map (fun b => (b, st))
-
-end FixedBuffer
-end Cx.Impl.FB64
+import CxVerif.Impl.FixedBuffer
+import CxVerif.Impl.HashProg
 
 namespace Cx.Impl.Sha1
-open Cx Cx.Impl.FB64
+open Cx Cx.Impl
 open Cx.Spec.Sha1 (Hash)
 
 /-- `simd::u32x4` (the portable "fake" module) -/
@@ -149,6 +61,9 @@ def sha1msg2 (a b : u32x4) : u32x4 :=
 
 /-- the `schedule!` macro of `digest_block_u32` (same text as `sha1_schedule_x4`) -/
 def schedule (v0 v1 v2 v3 : u32x4) : u32x4 := sha1msg2 (sha1msg1 v0 v1 ^^^ v2) v3
+
+/-- `pub fn sha1_schedule_x4` (same text as the `schedule!` macro; not called by the digest path) -/
+def sha1_schedule_x4 (v0 v1 v2 v3 : u32x4) : u32x4 := sha1msg2 (sha1msg1 v0 v1 ^^^ v2) v3
 
 def sha1_first_half (abcd msg : u32x4) : u32x4 := sha1_first_add (rotate_left (sha1_first abcd) 30) msg
 
@@ -273,11 +188,11 @@ def write_u32_be (x : UInt32) : Bytes := u32be x
 
 namespace Context
 
-def new : Context := ⟨H, 0, FixedBuffer.new⟩
+def new : Context := ⟨H, 0, FixedBuffer.new 64⟩
 
 def update_mut (self : Context) (input : Bytes) : Option Context :=
   let processed_bytes := self.processed_bytes + UInt64.ofNat input.length
-  match self.buffer.input input digest_blocks self.h with
+  match self.buffer.input 64 input digest_blocks self.h with
   | none => none
   | some (buffer, h) => some ⟨h, processed_bytes, buffer⟩
 
@@ -287,13 +202,13 @@ def reset (self : Context) : Context := ⟨H, 0, self.buffer.reset⟩
 
 /-- `mk_result(st, rs)`: returns the mutated context and the 20 output bytes -/
 def mk_result (st : Context) : Option (Context × Bytes) :=
-  match st.buffer.standard_padding 8 digest_block st.h with
+  match st.buffer.standard_padding 64 8 digest_block st.h with
   | none => none
   | some (buffer, h) =>
-    match buffer.next (u64be (st.processed_bytes <<< 3)) with
+    match buffer.next_write 8 (u64be (st.processed_bytes <<< 3)) with
     | none => none
     | some buffer =>
-      match buffer.full_buffer with
+      match buffer.full_buffer 64 with
       | none => none
       | some (buffer, blk) =>
         match digest_block h blk with
@@ -316,5 +231,9 @@ def sha1 (input : Bytes) : Option Bytes :=
   match Context.new.update input with
   | none => none
   | some c => c.finalize
+
+/-- the context family run by the `hctx.sha1` op -/
+def fam : Cx.HashProg.Family Context :=
+  ⟨Context.new, Context.update, Context.update_mut, Context.reset, Context.finalize_reset, Context.finalize⟩
 
 end Cx.Impl.Sha1
